@@ -134,13 +134,13 @@ package ecscache
 //@ pred ecsKey(host string, qt int, qc int, do bool, sub netip.Prefix, declined bool, dep bool) = wrap(hsum(dep ?
 //@        hmix1(hmixA(ecsKeyBase(host, qt, qc, do, sub), prefixAddr(sub)), wrap(prefixBits(sub), uint8)) :
 //@        hmix1(ecsKeyBase(host, qt, qc, do, sub), declined ? 1 : 0)), uint64)
-//@ pred keyOf(cr *cacheRequest, dep bool) = ecsKey(cr.host, cr.qType, cr.qClass, cr.reqDO, cr.subnet, cr.isECSDeclined, dep)
+//@ pred crKey(cr *cacheRequest, dep bool) = ecsKey(cr.host, cr.qType, cr.qClass, cr.reqDO, cr.subnet, cr.isECSDeclined, dep)
 
 //@ func (*Middleware).toCacheKey
 //@   property C05
 //@   requires cr != nil
 //@   modifies hst, ipBytes
-//@   ensures key-covers-subnet-iff-dependent: key == keyOf(cr, respIsECSDependent)
+//@   ensures key-covers-subnet-iff-dependent: key == crKey(cr, respIsECSDependent)
 
 // Cached items are well-formed (toCacheItem stores a clone of a response).
 //@ pred itemsOK() = forall it *cacheItem :: it != nil ==> it.msg != nil && validRRs(it.msg.Answer) && validRRs(it.msg.Ns) && validRRs(it.msg.Extra) && ecsNone(it.msg)
@@ -157,8 +157,8 @@ package ecscache
 //@   modifies heap, lastLowest, cgetCache, cgetKey, hst, ipBytes
 //@   preserves cacheRequest.*, agd.RequestInfo.*, dnsmsg.ECS.*, geoip.Location.*
 //@   ensures opted-out-never-served-from-the-subnet-cache: old(cr.isECSDeclined) ==> !isECSDependent && (resp != nil ==> cgetCache == mw.cache)
-//@   ensures subnet-answers-only-under-the-subnet-key: isECSDependent ==> resp != nil && cgetCache == mw.ecsCache && cgetKey == old(keyOf(cr, true))
-//@   ensures resp != nil && !isECSDependent ==> cgetCache == mw.cache && cgetKey == old(keyOf(cr, false))
+//@   ensures subnet-answers-only-under-the-subnet-key: isECSDependent ==> resp != nil && cgetCache == mw.ecsCache && cgetKey == old(crKey(cr, true))
+//@   ensures resp != nil && !isECSDependent ==> cgetCache == mw.cache && cgetKey == old(crKey(cr, false))
 //@   ensures cached-answers-carry-no-subnet-option: resp != nil ==> ecsNone(resp) && validRRs(resp.Extra) && optsOK(resp.Extra)
 //@   ensures a-miss-changes-nothing: resp == nil ==> cr.subnet == old(cr.subnet) && cr.isECSDeclined == old(cr.isECSDeclined) && cr.host == old(cr.host) &&
 //@             cr.qType == old(cr.qType) && cr.qClass == old(cr.qClass) && cr.reqDO == old(cr.reqDO)
@@ -217,7 +217,7 @@ package ecscache
 //@             csetExp[c] == (mw.overrideTTL && old(resp.Rcode) != 2 ? max(lastLowest * 1000000000, mw.cacheMinTTL) : lastLowest * 1000000000)
 //@   ensures stored-under-its-key: (csets[respIsECSDependent ? mw.ecsCache : mw.cache] == old(csets[respIsECSDependent ? mw.ecsCache : mw.cache]) ||
 //@             (csets[respIsECSDependent ? mw.ecsCache : mw.cache] == old(csets[respIsECSDependent ? mw.ecsCache : mw.cache]) + 1 &&
-//@              csetKey[respIsECSDependent ? mw.ecsCache : mw.cache] == old(keyOf(cr, respIsECSDependent))))
+//@              csetKey[respIsECSDependent ? mw.ecsCache : mw.cache] == old(crKey(cr, respIsECSDependent))))
 
 //@ func rmHopToHopData
 //@   property C05
